@@ -19,8 +19,8 @@ Main results
 Full statement of the property (FALSE on this tree, kept visible):
     theorem documented_eq_bound_full (c : Ctx) (stmts : List Stmt) :
         documented c stmts = bound c stmts ∧ ((documented c stmts).map (·.1)).Nodup
-It fails for `@x.setter` (member `x.setter` invented), a bare annotation (member invented), an assigned
-class attribute that shadows an inherited method (member missing), definitions in `else`/`finally`
+It fails for `@x.setter` (member `x.setter` invented), a bare annotation (member invented), a class attribute
+assigned a non-literal that shadows an inherited method (member missing; literals are documented since 91105ce), definitions in `else`/`finally`
 (missing), re-bound names (pydoctor keeps the `def`/`class`), `@overload` without implementation; the
 kind clause fails for stacked descriptors, `builtins.classmethod`, identity decorators named `*property` and
 descriptors at module level.  Each has a `_counterexample` theorem below.  Two former exclusions are gone:
@@ -418,7 +418,7 @@ theorem sim_assign {c : Ctx} {sn sn' : Seen} {s : State} {ns : PySem.Ns} (R : Re
   split at h
   · simp at h
   · rename_i hc
-    simp only [Bool.or_eq_true, Bool.and_eq_true, not_or, not_and, Bool.not_eq_true] at hc
+    simp only [Bool.or_eq_true, not_or, Bool.not_eq_true] at hc
     obtain ⟨hn, hi⟩ := hc
     have hn' : n ∉ sn.names := by simpa using hn
     simp only [Option.some.injEq] at h
@@ -427,11 +427,19 @@ theorem sim_assign {c : Ctx} {sn sn' : Seen} {s : State} {ns : PySem.Ns} (R : Re
     have hlp : PySem.lookup ns n = none := by rw [plookup_none_iff, R.pnames]; exact hn'
     cases hcl : c.inClass with
     | true =>
-      have hi' : c.inheritedNonAttr.contains n = false := hi hcl
+      have hguard : (!maybeAttribute c s n && !((lookup s.contents n).isNone && isLiteralValue (some v))) = false := by
+        simp only [maybeAttribute, hl, Option.isNone_none, Bool.true_and]
+        cases hin : c.inheritedNonAttr.contains n <;> cases hlit : isLiteralValue (some v) <;> simp_all
       obtain ⟨f1, f2, f3, f4⟩ := storeVar_facts { name := n, cls := .attribute, kind := .classVariable } ann v inBlock
         .classVariable rfl (by simp) (by simp)
       refine ⟨_, _, by simp only [execStmt]; rfl, by simp only [PySem.execStmt]; rfl, ?_⟩
-      simp only [handleVar, hcl, handleClassVar, maybeAttribute, hl, hi', if_true, Bool.not_false, Bool.not_true]
+      have hcv : handleClassVar c s n ann (some v) inBlock =
+          { contents := put s.contents (storeVar { name := n, cls := .attribute, kind := .classVariable } ann (some v) inBlock .classVariable),
+            cur := some n } := by
+        unfold handleClassVar
+        rw [hguard]
+        simp [hl]
+      simp only [handleVar, hcl, if_true, hcv]
       rw [put_fresh _ _ (by rw [f1]; exact hl), bind_fresh _ _ _ hlp]
       have := rel_append R (storeVar { name := n, cls := .attribute, kind := .classVariable } ann (some v) inBlock .classVariable)
         (.value v) (by rw [f1]; exact hn') (view_var c _ v f2 f3 f4) (some n) sn.plain (fun n hn => Or.inl hn)
@@ -1120,10 +1128,22 @@ theorem documented_eq_bound_annotation_counterexample :
     documented (cx false) [.annOnly nW "int".toList] = [(nW, .variable)] ∧
     bound (cx false) [.annOnly nW "int".toList] = [] := by decide
 
-/-- `f = 1` in a class whose base defines a method `f`: CPython binds it, pydoctor documents nothing -/
-theorem documented_eq_bound_inherited_counterexample :
-    documented (cx true [nF]) [.assign nF .int none] = [] ∧
-    bound (cx true [nF]) [.assign nF .int none] = [(nF, .variable)] := by decide
+/-- a NON-literal value (`f = make()`) in a class whose base defines a method `f`: CPython binds it, pydoctor's
+`_maybeAttribute` guard still refuses it (only literals bypass the guard since 91105ce) -/
+theorem documented_eq_bound_inherited_nonliteral_counterexample :
+    documented (cx true [nF]) [.assign nF .call none] = [] ∧
+    bound (cx true [nF]) [.assign nF .call none] = [(nF, .variable)] := by decide
+
+/-- `_handleClassVar`'s guard as it was before 91105ce: `if not _maybeAttribute(cls, name): return` — pre-fix, for the record -/
+def classVarRefusedOld (c : Ctx) (s : State) (n : Name) : Bool := !maybeAttribute c s n
+
+/-- historical (before 91105ce): `f = 1` in a class whose base defines a method `f` was refused and `B.f` went
+undocumented; now it is documented as CPython binds it, and the namespace is inside the subset -/
+theorem documented_eq_bound_inherited_counterexample_old :
+    classVarRefusedOld (cx true [nF]) {} nF = true ∧
+    documented (cx true [nF]) [.assign nF .int none] = [(nF, .variable)] ∧
+    bound (cx true [nF]) [.assign nF .int none] = [(nF, .variable)] ∧
+    inSubset (cx true [nF]) [.assign nF .int none] = true := by decide
 
 /-- a definition in a `finally:` part is bound by CPython and not documented -/
 theorem documented_eq_bound_tail_counterexample :
